@@ -2,7 +2,7 @@
 // prints one op line in the corr protocol:   fsrun <ues> <r> <p> <s> <rel> <d> <kind> <k> <seed> \t <canonical result>
 //
 //	peer -emu /verif/.build/bin/stgutgmain-verif [-seed S] [-ues N] [-counts r,p,s,rel,d] [-fault k:kind]
-//	     [-script file.json] [-dump-script] [-release-cmd] [-transcript out.json] [-keep]
+//	     [-script file.json] [-dump-script] [-release-cmd] [-any-imsi] [-transcript out.json] [-keep]
 //
 // -script file.json overrides the seed-derived script (configuration, AMF identity, per-UE choices: RAND, SQN, AMF field,
 // ngKSI, AMF-UE-NGAP-ID, TMSI, UE IP, TEID, UPF IP); -dump-script prints the script that would be used and exits.
@@ -31,6 +31,7 @@ func main() {
 	dump := flag.Bool("dump-script", false, "print the script and exit")
 	relCmd := flag.Bool("release-cmd", false, "answer PDU SESSION RELEASE REQUEST with a PDU SESSION RESOURCE RELEASE COMMAND")
 	transcript := flag.String("transcript", "", "write the full transcript (JSON) here")
+	anyIMSI := flag.Bool("any-imsi", false, "let the generated IMSI end in any four digits (default: imsi mod 10^4 stays in 1..15, see finding F14)")
 	keep := flag.Bool("keep", false, "keep the scratch directory")
 	runRoot := flag.String("run-root", "/verif/.build/run", "where scratch directories are created")
 	flag.Parse()
@@ -51,7 +52,7 @@ func main() {
 			c[i] = v
 		}
 	}
-	s := peer.NewScript(*seed, *ues, c)
+	s := peer.NewScriptOpt(*seed, *ues, c, *anyIMSI)
 	if *scriptFile != "" {
 		b, err := os.ReadFile(*scriptFile)
 		if err != nil {
